@@ -728,6 +728,11 @@ class Request(interfaces.Request, BaseUnicastRequest):
                 self._stop_interest()
             return
 
+        if first_event.exception is not None:
+            # no response at all: the observation fails the way the request did
+            self.observation.error(first_event.exception)
+            return
+
         if first_event.is_last:
             self.observation.error(error.NotObservable())
             return
